@@ -131,4 +131,23 @@ def entriesOf (as : List AliasOf) (d : Decl) : List Entry :=
     | [] => [e none]
     | gs => gs.map (fun g => e (some g))
 
+/-! ### `--groups` -/
+
+/-- insertion into a list sorted by `<` on strings (byte order, as `String::cmp`) -/
+def insertStr (s : String) : List String → List String
+  | [] => [s]
+  | t :: ts => if s < t then s :: t :: ts else t :: insertStr s ts
+
+def sortStr (l : List String) : List String := l.foldr insertStr []
+
+/-- `groups.retain(|g| seen.insert(g.clone()))`: the first occurrence of every name -/
+def dedupAux : List String → List String → List String
+  | _, [] => []
+  | seen, x :: xs => if x ∈ seen then dedupAux seen xs else x :: dedupAux (x :: seen) xs
+
+/-- `Justfile::public_groups` (sorted listing): the groups of the public recipes and of the
+submodules, sorted by name, each name once — names are compared exactly -/
+def publicGroups (ds : List Decl) (moduleGroups : List String) : List String :=
+  dedupAux [] (sortStr (((ds.filter (fun d => !d.isPrivate)).flatMap Decl.groups) ++ moduleGroups))
+
 end Just.Listing
